@@ -721,3 +721,20 @@ def c17_line_faults(seed, nmax=9, thin=False):
         b["ksrc"] = "lines"
         out.append(episode([b, {"op": "len"}], kt="str", kf=keyfn(r, "str"), src="faults", budget_ms=60000))
     return out
+
+
+def c17_heavy_dups(seed, sizes=(100000,), copies=(2000,)):
+    """one key repeated so often that its shard is more than 1% above the average with every seed: the build must
+    still end with DuplicateKey after a bounded number of attempts (it used to retry MaxShardTooBig forever)"""
+    r = random.Random(seed)
+    out = []
+    for n in sizes:
+        for c in copies:
+            for combo, offline in [(("shards", 2, "func", "bfv", "usize"), False), (("shards", 2, "filter", "box", "u8"), True),
+                                   (("fullsigs", 2, "func", "bfv", "usize"), False)]:
+                start = r.randrange(n - c - 1)
+                subst = [[p, 7] for p in range(start, start + c) if p != 7]
+                b = build(n, combo, subst=subst, check_dups=True, offline=offline, log2_buckets=4 if offline else None,
+                          threads=r.choice([None, 1, 4]))
+                out.append(episode([b, {"op": "len"}], kt="usize", kf=RANGE0, src="dups", budget_ms=120000))
+    return out
